@@ -423,7 +423,7 @@ impl GridModel {
                 }
             }
             GridKind::Growth => {
-                let logs: &[u8] = if t { &[12, 16, 20, 24] } else { &[12, 16, 18] };
+                let logs: &[u8] = if t { &[12, 16, 20, 24, 26] } else { &[12, 16, 20, 22] };
                 for m in [1u8, 2, 4, 8, 16] {
                     for wl in 0..10u8 {
                         for &lv in logs {
